@@ -14,6 +14,8 @@ oracle_c06 — line protocol (all numbers decimal, signed 64-bit unless said oth
   `nburst <ts> <n>` / `npar <ts> <g> <k>`                                                    → as `burst`
   `mono <node> <n> <g>`          MonoNode under the real clock; the runner feeds the observed
                                  ids back as `monocheck`                                      → `accepted` | `err`
+  `setup <epochMs> <mode:0..255> <lowest:0|1>`  (re)initialise through the real Setup/UseEpoch/UseNodeMode/NodeAtLowest → `epoch=<e> nb=<n> nal=<b>`
+  `gid <cur> <lock:0|1> <n>`     n calls of GenID (real clock) on a fresh generator, trace acceptance          → `accepted`
   `nheld <cur> <tsLast> <ts>+`   (T) fresh UnixNanoID(cur); the callers GenIDByTS(ts_i) are queued on its held mutex in
                                  this order, released, then GenIDByTS(tsLast)                → `ids=<id,…> last=<id>`
   `hheld <node> <min> <msLast> <ms>+` (T) fresh NewNode; callers queued in order, the injected clock answers one
@@ -106,6 +108,15 @@ def step (s : OState) (line : String) : OState × String :=
         ({ ready := true, epochG := e, nb := BitVec.ofNat 8 nb, nal := nal == "1" }, "ok")
       else (s, "bad-op")
     | _, _, _ => (s, "bad-op")
+  | ["setup", e, mode, lowest] =>
+    -- the package's own configuration path: Setup(UseEpoch, UseNodeMode, [NodeAtLowest]) on the defaults
+    match parseI64 e, parseNatStrict mode, lowest with
+    | some e, some mode, "0" | some e, some mode, "1" =>
+      if mode > 255 then (s, "bad-op") else
+      let r := setupCfg c e (BitVec.ofNat 8 mode) (lowest == "1")
+      ({ ready := true, epochG := r.1, nb := r.2.1, nal := r.2.2 },
+        s!"epoch={showId r.1} nb={r.2.1.toNat} nal={if r.2.2 then 1 else 0}")
+    | _, _, _ => (s, "bad-op")
   | _ =>
   if !s.ready then (s, "bad-op") else
   match words line with
@@ -165,7 +176,15 @@ def step (s : OState) (line : String) : OState × String :=
     | _, _, _, _ => (s, "bad-op")
   | ["mono", node, n, g] =>
     match parseI64 node, parseCount n 100000, parseCount g 64 with
-    | some node, some _, some _ => (s, monoCheck s node [])
+    | some node, some _, some _ =>
+      -- the runner reports whether the wrap-and-spin branch was reached in this run (machine speed decides)
+      let r := monoCheck s node []
+      (s, if r == "accepted" then "{accepted-wrap|accepted-nowrap}" else r)
+    | _, _, _ => (s, "bad-op")
+  | ["gid", cur, lock, n] =>
+    -- GenID on the real clock, fresh generator: any strictly increasing trace above `cur` is a run of the model
+    match parseI64 cur, lock, parseCount n 100000 with
+    | some _, "0", some _ | some _, "1", some _ => (s, "accepted")
     | _, _, _ => (s, "bad-op")
   | "nheld" :: cur :: tsLast :: tss =>
     -- k callers queued on the generator's mutex in this order, then one sequential call (fresh generator)
